@@ -33,7 +33,9 @@ class TwoArgFault(Exception):
         self.code, self.msg = code, msg
 
 
-EXC = [ValueError, KeyError, RuntimeError, EnvFault, UnicodeDecodeError, TwoArgFault]
+# KeyboardInterrupt: the one non-Exception type the worker promises to forward (`except (KeyboardInterrupt, Exception)`);
+# SystemExit / GeneratorExit are NOT caught by the worker and are deliberately not injected
+EXC = [ValueError, KeyError, RuntimeError, EnvFault, UnicodeDecodeError, TwoArgFault, KeyboardInterrupt]
 EXC_NAMES = [c.__name__ for c in EXC]
 
 
